@@ -142,6 +142,9 @@ func (c *Ctx) roleWiring(r *shape.Result, fi *load.FuncInfo, term sym.Expr) {
 		if names == nil || len(names) != len(call.Args) {
 			return
 		}
+		if pn, ok := pinnedParams[tn]; ok && len(pn) == len(names) {
+			names = pn // roles come from the pinned names, by position
+		}
 		for i, a := range call.Args {
 			want := paramRole(names[i])
 			if want == "" {
